@@ -221,6 +221,9 @@ func cmdCheck(args []string) int {
 			fmt.Printf("TOOL-ERROR: %s: %s\n", k, e)
 			toolErr = true
 		}
+		for _, si := range g.staleInv {
+			fmt.Printf("NOTE: %s: loop invariant no longer applies and was dropped: %s\n", trimName(k), si)
+		}
 		gens = append(gens, g)
 		funcsUnder = append(funcsUnder, trimName(k))
 		for _, o := range g.obls {
@@ -396,6 +399,20 @@ func cmdCheck(args []string) int {
 			case "sat":
 				nCoverOK++
 			case "unsat":
+				// a cover that follows a failed obligation of the same function is unreachable only
+				// because that obligation is assumed afterwards: the failure is reported there
+				after := false
+				for _, q := range results {
+					if q == r {
+						break
+					}
+					if q.O.Expect == "unsat" && q.O.Func == r.O.Func && q.Res.Status != "unsat" {
+						after = true
+					}
+				}
+				if after {
+					break
+				}
 				fmt.Printf("VACUOUS: %s: %s\n", r.O.Name, r.O.Text)
 				failed = append(failed, r)
 			default:
